@@ -119,7 +119,9 @@ func vOtherPaths() []*vPath {
 				return "ERR decode " + err.Error()
 			}
 			return vCanon(x)
-		}, cause: vCauseNone},
+		}, cause: vCauseNone,
+			// two keys that marshal to the same text: the YAML text has a duplicate key and cannot be decoded back
+			skipModel: func(sh *vShape) bool { return sh.hasKey2() }},
 		// ---- oracle only
 		{label: "goyaml.v3 Marshal (text)", render: func(v any) string { return vErrStr(yaml3.Marshal(v)) }, cause: vCauseNone},
 		{label: "sigs.k8s.io/yaml Marshal", render: func(v any) string { return vErrStr(sigsyaml.Marshal(v)) }, cause: vCauseJSON},
@@ -130,7 +132,7 @@ func vOtherPaths() []*vPath {
 				return "ERR " + err.Error()
 			}
 			return buf.String()
-		}, cause: vCauseNone, emptyOmitted: true},
+		}, cause: vCauseNone, emptyOmitted: true, mapOrderRandom: true},
 		{label: "text/template {{.}} and {{printf \"%v\" .}}", render: func(v any) string {
 			var b bytes.Buffer
 			if err := template.Must(template.New("t").Parse("{{.}}|{{printf \"%v\" .}}|{{print .}}")).Execute(&b, v); err != nil {
